@@ -1594,7 +1594,7 @@ func remainingLenGuards(f *FuncCFG) []lenGuard {
 		if !ok {
 			return
 		}
-		rel, ok := relOf(ft.Atom)
+		rel, ok := relOfWith(ft.Atom, func(x ast.Expr) string { return exprKey(stripWiden(info, x)) })
 		if !ok {
 			return
 		}
@@ -1602,7 +1602,8 @@ func remainingLenGuards(f *FuncCFG) []lenGuard {
 			rel = negRel(rel)
 		}
 		l, rr := rel.L, rel.R
-		curBlock, curX, curY = b, be.X, be.Y
+		curBlock, curX, curY = b, stripWiden(info, be.X), stripWiden(info, be.Y)
+		be = &ast.BinaryExpr{X: curX, Op: be.Op, Y: curY}
 		// want: other <= len   (i.e. rel is `other <= len`), or `len != 0` / `0 < len`  => one byte available
 		switch {
 		case rel.Op == "<=" && isLen(rr):
@@ -1622,6 +1623,77 @@ func remainingLenGuards(f *FuncCFG) []lenGuard {
 		}
 	})
 	return out
+}
+
+// stripWiden removes value-preserving integer conversions from around e: unsigned -> wider or equal
+// unsigned, signed -> wider or equal signed, unsigned -> strictly wider signed, and any conversion to
+// an unsigned type of a len()/cap() result (never negative). int and uint count as 64 bit (the
+// platform the packages are type-checked for). A comparison or a bound written with such conversions
+// means the same as without them.
+func stripWiden(info *types.Info, e ast.Expr) ast.Expr {
+	size := func(b *types.Basic) (bits int, signed bool, ok bool) {
+		switch b.Kind() {
+		case types.Int8:
+			return 8, true, true
+		case types.Int16:
+			return 16, true, true
+		case types.Int32:
+			return 32, true, true
+		case types.Int64, types.Int:
+			return 64, true, true
+		case types.Uint8:
+			return 8, false, true
+		case types.Uint16:
+			return 16, false, true
+		case types.Uint32:
+			return 32, false, true
+		case types.Uint64, types.Uint:
+			return 64, false, true
+		}
+		return 0, false, false
+	}
+	for {
+		e = ast.Unparen(e)
+		c, ok := e.(*ast.CallExpr)
+		if !ok || len(c.Args) != 1 {
+			return e
+		}
+		tv, has := info.Types[c.Fun]
+		if !has || !tv.IsType() {
+			return e
+		}
+		tb, ok1 := tv.Type.Underlying().(*types.Basic)
+		at := info.TypeOf(c.Args[0])
+		if !ok1 || at == nil {
+			return e
+		}
+		sb, ok2 := at.Underlying().(*types.Basic)
+		if !ok2 {
+			return e
+		}
+		tBits, tSigned, okT := size(tb)
+		sBits, sSigned, okS := size(sb)
+		if !okT || !okS {
+			return e
+		}
+		exact := false
+		switch {
+		case !sSigned && !tSigned:
+			exact = tBits >= sBits
+		case sSigned && tSigned:
+			exact = tBits >= sBits
+		case !sSigned && tSigned:
+			exact = tBits > sBits
+		default: // signed -> unsigned: only for values that are never negative
+			if ic, isCall := ast.Unparen(c.Args[0]).(*ast.CallExpr); isCall && (rawKey(ic.Fun) == "len" || rawKey(ic.Fun) == "cap") {
+				exact = tBits >= sBits
+			}
+		}
+		if !exact {
+			return e
+		}
+		e = c.Args[0]
+	}
 }
 
 // endOffsetOrigins: e (an identifier read at pt) stands for an end offset. Every value it can have
@@ -1731,6 +1803,7 @@ func checkDeserializerBounds(r *Reporter, p *Prog) {
 				}
 				return
 			}
+			kExpr = stripWiden(info, kExpr)
 			kKey := exprKey(kExpr)
 			kVal, kConst := constInt(info, kExpr)
 			kRes, kResE, kResPt = f.KeyAt(kExpr, pt), kExpr, pt
@@ -1816,6 +1889,79 @@ func checkDeserializerBounds(r *Reporter, p *Prog) {
 								w := int64(0)
 								fmt.Sscanf(strings.TrimPrefix(k, "binary.LittleEndian.Uint"), "%d", &w)
 								need("deser/bounds-guarded", fmt.Sprintf("%s in %s", exprKey(x), fkey), p.posStr(x.Pos()), pt, nil, w/8, "a fixed-width number is read from the open-ended rest of the source (panic on truncated input)")
+							}
+							// ... or from a window of the source cut to an input-denoted length: the window
+							// `src[off : off+K]` must be known to hold the width (a constant >= width compared
+							// with K on every path)
+							if id, isId := ast.Unparen(x.Args[0]).(*ast.Ident); isId {
+								w := int64(0)
+								fmt.Sscanf(strings.TrimPrefix(k, "binary.LittleEndian.Uint"), "%d", &w)
+								for _, o := range f.Origins(id, pt) {
+									se, ok := ast.Unparen(o.E).(*ast.SliceExpr)
+									if !ok || !isSrc(se.X) || se.High == nil {
+										continue
+									}
+									hb, ok := ast.Unparen(se.High).(*ast.BinaryExpr)
+									if !ok || hb.Op != token.ADD || !isOff(hb.X) || se.Low == nil || !isOff(se.Low) {
+										continue
+									}
+									if _, isConst := constInt(info, hb.Y); isConst {
+										continue // a constant window: its size is visible in the slice expression
+									}
+									kk := exprKey(stripWiden(info, hb.Y))
+									kkAt := f.KeyAt(stripWiden(info, hb.Y), o.At)
+									fromInput := strings.Contains(kkAt, ".src")
+									if re, _ := f.Resolve(stripWiden(info, hb.Y), o.At); !fromInput {
+										if rc, isCall := ast.Unparen(re).(*ast.CallExpr); isCall {
+											if rse, isSel := ast.Unparen(rc.Fun).(*ast.SelectorExpr); isSel && strings.HasSuffix(strings.TrimPrefix(typeName(info.TypeOf(rse.X)), "*"), "serializer.Deserializer") {
+												fromInput = true // a value a reading method of the Deserializer returned
+											}
+										}
+									}
+									if !fromInput {
+										continue // the window's size is not read from the input (the size of the destination type, say)
+									}
+									nSites++
+									var wide []Edge
+									f.forEachEdgeFact(func(e Edge, eb *cfg.Block, ft fact) {
+										be, isBin := ast.Unparen(ft.Atom).(*ast.BinaryExpr)
+										if !isBin {
+											return
+										}
+										ept := Point{eb, len(eb.Nodes) - 1}
+										rel, okr := relOfWith(ft.Atom, func(y ast.Expr) string { return f.KeyAt(stripWiden(info, y), ept) })
+										if !okr {
+											return
+										}
+										if !ft.Pol {
+											rel = negRel(rel)
+										}
+										// c <= K or c < K with a constant c
+										if rel.R != kk && rel.R != kkAt {
+											return
+										}
+										var ce ast.Expr
+										if kx := f.KeyAt(stripWiden(info, be.X), ept); kx == rel.L {
+											ce = be.X
+										} else {
+											ce = be.Y
+										}
+										if c, isC := constInt(info, ce); isC {
+											if rel.Op == "<" {
+												c++
+											}
+											if (rel.Op == "<" || rel.Op == "<=") && c >= w/8 {
+												wide = append(wide, e)
+											}
+										}
+									})
+									wkey := fmt.Sprintf("%s in %s", exprKey(x), fkey)
+									if wit, only := f.OnlyThroughEdges(pt, wide); only {
+										r.Pass("deser/bounds-guarded", wkey, p.posStr(x.Pos()), "the window cut from the source is known to hold the width of the number")
+									} else {
+										r.Fail("deser/bounds-guarded", wkey, p.posStr(x.Pos()), fmt.Sprintf("a %d-byte number is read from a window of the source whose length %s comes from the input and was not shown to be at least %d on every path (index out of range on a short denoted length)", w/8, kk, w/8), wit...)
+									}
+								}
 							}
 						}
 					case *ast.AssignStmt:
@@ -3213,7 +3359,7 @@ func checkInputSlicesBounded(r *Reporter, p *Prog) {
 								}
 								// (b) guarded by a length relation
 								c, isConst := constInt(info, bd.e)
-								bk, bkAt := rawKey(bd.e), f.KeyAt(bd.e, pt)
+								bk, bkAt := rawKey(stripWiden(info, bd.e)), f.KeyAt(stripWiden(info, bd.e), pt)
 								need := c
 								if bd.strict {
 									need = c + 1
@@ -3225,20 +3371,21 @@ func checkInputSlicesBounded(r *Reporter, p *Prog) {
 										return
 									}
 									ept := Point{eb, len(eb.Nodes) - 1}
-									rel, ok := relOfWith(ft.Atom, func(x ast.Expr) string { return f.KeyAt(x, ept) })
+									rel, ok := relOfWith(ft.Atom, func(x ast.Expr) string { return f.KeyAt(stripWiden(info, x), ept) })
 									if !ok {
 										return
 									}
 									if !ft.Pol {
 										rel = negRel(rel)
 									}
+									beX, beY := stripWiden(info, be.X), stripWiden(info, be.Y)
 									// the operand that is not len(base)
 									var other ast.Expr
 									switch {
-									case lenKeys[f.KeyAt(be.Y, ept)] || lenKeys[rawKey(be.Y)]:
-										other = be.X
-									case lenKeys[f.KeyAt(be.X, ept)] || lenKeys[rawKey(be.X)]:
-										other = be.Y
+									case lenKeys[f.KeyAt(beY, ept)] || lenKeys[rawKey(beY)]:
+										other = beX
+									case lenKeys[f.KeyAt(beX, ept)] || lenKeys[rawKey(beX)]:
+										other = beY
 									default:
 										return
 									}
